@@ -9,5 +9,6 @@ CONSTANTS N = 4
  ReadErrAllowed = TRUE
  FixWorkerErr = TRUE
  FixQueueCtx = TRUE
-INVARIANTS RecvOKImpliesComplete SendOKImpliesFin NoDataOverrun TypeOK
+ WriterLimit = 0
+INVARIANTS ProgressWithoutEnvironment RecvOKImpliesComplete SendOKImpliesFin NoDataOverrun TypeOK
 CHECK_DEADLOCK TRUE
